@@ -89,7 +89,7 @@ def _g_target(t):
 
 MODEL_STEPS = 1500      # programs whose reference run needs more predicate calls are left to the oracle
 MODEL_FUEL = 60000
-MODEL_DEPTH = 150
+MODEL_DEPTH = 400     # above what CPython reaches before RecursionError (about 330 nested queries)
 
 def _s_term(t):
     """term of the program AST -> Lang.Ast.sterm (Gallina); lists as './2 and '[]' (the same terms at run time)"""
@@ -437,6 +437,7 @@ def _impl_prog(case):
 
     heldbad = [0]
     nbs = []
+    bvals = []
     def drive(mode, k, j):
         """returns (answers, end, maxbound)"""
         state['calls'] = 0
@@ -445,9 +446,16 @@ def _impl_prog(case):
         mb = [0]
         base = nbound()
         nbs[:] = []
+        bvals[:] = []
+        base_ids = set(id(v) for v in W if v._is_bound)
         def body():
             answers.append(answer())
             nbs.append(nbound() - base)
+            if len(bvals) < 12:
+                try:
+                    bvals.append(sorted(_canon([T.read(v)], 0)[0] for v in list(W) if v._is_bound and id(v) not in base_ids))
+                except RecursionError:
+                    bvals.append(None)       # a cyclic binding somewhere (unspecified): not compared
             mb[0] = max(mb[0], nbound() - base)
         end = 'abandoned'
         if mode in ('exhaust', 'pyraise'):
@@ -530,6 +538,7 @@ def _impl_prog(case):
     # reference run on the same engine and variables: exhaustive, nothing raises
     ref, refend, refmb = drive('exhaust', 0, None)
     refnb = list(nbs)
+    refvals = list(bvals)
     refsteps = steps[0]
     bad0 = check_world(before)
     k = min(case['k'], len(ref))
@@ -566,7 +575,7 @@ def _impl_prog(case):
             spec1 = list(c03_ref.answers(LIBAST + case['clauses'], case['dyn'], case['stack'], case['query'], nv, case['j'], MAXANS, show))
     except c03_ref.Cyclic:
         spec, spec1 = None, None
-    return {'ref': ref, 'refend': refend, 'refnb': refnb, 'steps': refsteps, 'bad0': bad0, 'k': k, 'spec': spec, 'spec1': spec1, 'heldbad': heldbad[0],
+    return {'ref': ref, 'refend': refend, 'refnb': refnb, 'refvals': refvals, 'steps': refsteps, 'bad0': bad0, 'k': k, 'spec': spec, 'spec1': spec1, 'heldbad': heldbad[0],
             'run1': [a1, e1], 'bad1': bad1, 'snap_restored': snap1 == snap0,
             'run2': [a2, e2], 'bad2': bad2, 'run3': [a3, e3], 'bad3': bad3,
             'leaked': leaked, 'maxbound': max(refmb, mb1), 'nworld': len(W)}
@@ -676,6 +685,11 @@ def _compare_prog(case, io, mo):
             i, m_answers[i] if i < len(m_answers) else 'no more answers', io['ref'][i] if i < len(io['ref']) else 'no more answers')
     if m_end != i_end:
         return 'the exhaustive run ends differently (model: %s, observed: %s)' % (m_end, io['refend'])
+    m_vals = [sorted(_canon([terms.obs_term(t)], 0)[0] for t in a[2]) for a in answers][:len(io['refvals'])]
+    m_vals = [m if o is not None else None for m, o in zip(m_vals, io['refvals'])]
+    if m_sizes == io['refnb'] and m_vals != io['refvals']:
+        i = next(i for i in range(len(m_vals)) if m_vals[i] != io['refvals'][i])
+        return 'the values of the Variables bound at answer %d differ from the frame machine (model: %r, observed: %r)' % (i, m_vals[i], io['refvals'][i])
     if m_sizes != io['refnb']:
         return 'number of bound Variables at the answers differs from the frame machine (model: %r, observed: %r)' % (m_sizes, io['refnb'])
     if m_end != 'abandoned' and fin != fin0:
